@@ -894,6 +894,8 @@ def generated_fragments() -> Tuple[List[Fragment], List[str]]:
                 try:
                     add(rel, "SQLTranspiler._build_analytic_expr", t._build_analytic_expr(tok, PH[0], node),
                         f"_build_analytic_expr(tokens.{name}, col, Analytic(params={'None' if params is None else len(params)}))")
+                except TypeError:
+                    pass            # a registry template of another arity (not an analytic operator)
                 except Exception as e:  # noqa: BLE001
                     problems.append(f"_build_analytic_expr({name}): {type(e).__name__}")
     except Exception as e:  # noqa: BLE001
